@@ -81,8 +81,9 @@ WKT_SAMPLES = {
 }
 
 
-def rand_msg(r, codec: Codec, full, depth=0, p_set=0.6, force=()):
-    """random JSON valuation of message `full` (proto field names)"""
+def rand_msg(r, codec: Codec, full, depth=0, p_set=0.6, force=(), max_depth=None):
+    """random JSON valuation of message `full` (proto field names); with `max_depth`, message-typed fields (other than
+    the well-known types with fixed samples) are left unset below that depth (densely recursive schemas)"""
     full = full.lstrip(".")
     if full in WKT_SAMPLES:
         return r.pick(WKT_SAMPLES[full])
@@ -91,6 +92,12 @@ def rand_msg(r, codec: Codec, full, depth=0, p_set=0.6, force=()):
     chosen_oneof = {}
     for fd in desc.fields:
         forced = fd.name in force
+        if max_depth is not None and depth >= max_depth:
+            inner = fd.message_type
+            if inner is not None and inner.GetOptions().map_entry:
+                inner = inner.fields_by_name["value"].message_type
+            if inner is not None and inner.full_name not in WKT_SAMPLES:
+                continue
         if not forced and not r.maybe(p_set if depth < 3 else 0.15):
             continue
         if fd.containing_oneof is not None and not (fd.has_presence and fd.containing_oneof.name.startswith("_")):
@@ -100,7 +107,7 @@ def rand_msg(r, codec: Codec, full, depth=0, p_set=0.6, force=()):
 
         def one(fd=fd):
             if fd.message_type is not None:
-                return rand_msg(r, codec, fd.message_type.full_name, depth + 1, p_set)
+                return rand_msg(r, codec, fd.message_type.full_name, depth + 1, p_set, max_depth=max_depth)
             if fd.enum_type is not None:
                 return r.pick([v.name for v in fd.enum_type.values])
             p = descriptor_pb2.FieldDescriptorProto()
@@ -115,7 +122,7 @@ def rand_msg(r, codec: Codec, full, depth=0, p_set=0.6, force=()):
                 if isinstance(k, bool):
                     k = "true" if k else "false"
                 if vf.message_type is not None:
-                    v = rand_msg(r, codec, vf.message_type.full_name, depth + 1, p_set)
+                    v = rand_msg(r, codec, vf.message_type.full_name, depth + 1, p_set, max_depth=max_depth)
                 elif vf.enum_type is not None:
                     v = r.pick([e.name for e in vf.enum_type.values])
                 else:
